@@ -26,7 +26,7 @@ import (
 //	A     one gatherer attempt: pre/a1/a2 = action placed before the acquisition / after it /
 //	      between the last step and addCandidate (0 none 1 Restart 2 Close 3 Failed);
 //	      acq = 1 socket granted, 0 refused; steps: srflx "1" reply "0" timeout "2" closed by the
-//	      loop-done watcher (a1 = Close); relay: factory, Listen, Allocate, relayed-address outcomes e.g. "1111", "10", "1110" (address of a family not configured), "1112" (location-tracked address)
+//	      loop-done watcher (a1 = Close); relay: factory, Listen, Allocate, relayed-address outcomes e.g. "1111", "10", "1110" (address of a family not configured), "1112" (location-tracked address), "1113" (accepted; closing the allocation later reports an error)
 //	T     after the cycle: R Restart, F Failed, G a second plain cycle, C Close; a checkpoint
 //	      (per-resource open/close-call tallies + number of local candidates) follows each
 //
@@ -331,7 +331,11 @@ func build(l lcase) (*world, *gf.Net, error) {
 			if at(2) == '0' {
 				cl.AllocErr = errors.New("allocation refused")
 			}
+			closeFault := at(3) == '3' // the relayed address is accepted; closing the allocation will report an error
 			cl.OnAlloc = func(b *gf.Borrowed) {
+				if closeFault {
+					b.CloseErr = errors.New("fake: closing the allocation failed")
+				}
 				w.add(borrowedRes{b})
 				b.OnLocalAddr = func(b *gf.Borrowed) {
 					if a, ok := w.cur(); ok && w.once(b) {
@@ -515,6 +519,9 @@ func stepsFor(site int, c *Ctx, fault bool) string {
 		if fault {
 			return []string{"0", "10", "110", "1110", "1112"}[c.Rng.Intn(5)]
 		}
+		if c.Rng.Intn(4) == 0 {
+			return "1113" // accepted, but closing the allocation later reports an error
+		}
 
 		return "1111"
 	}
@@ -545,7 +552,7 @@ func run(c *Ctx) error {
 		case 2:
 			stepAlts = []string{"1", "0"}
 		case 3:
-			stepAlts = []string{"1111", "0", "10", "110", "1110", "1112"}
+			stepAlts = []string{"1111", "0", "10", "110", "1110", "1112", "1113"}
 		default:
 			stepAlts = []string{"-"}
 		}
